@@ -55,6 +55,10 @@ inductive Out
   | hang
   deriving DecidableEq, Repr
 
+def Out.int? : Out → Option Int
+  | .int n => some n
+  | _ => none
+
 /-- `x in self.numbers`: the generator refreshes the cache as it goes and is abandoned at the first hit. -/
 def scan (num : ObjId → Int) : List ObjId → Cache → Int → Cache × Bool
   | [], c, _ => (c, false)
@@ -71,15 +75,17 @@ def firstWith (num : ObjId → Int) : List ObjId → Int → Option ObjId
   | [], _ => none
   | o :: t, n => if num o = n then some o else firstWith num t n
 
+/-- the linear search of `NumberedObjectCollection.get` (cache miss or stale entry) -/
+def getSlow (s : St) (i : Int) : St × Option ObjId :=
+  match firstWith s.num s.objs i with
+  | some o => ({ s with cache := dset s.cache i o }, some o)
+  | none => (s, none)
+
 /-- `NumberedObjectCollection.get` -/
 def get (s : St) (i : Int) : St × Option ObjId :=
-  let slow : St × Option ObjId :=
-    match firstWith s.num s.objs i with
-    | some o => ({ s with cache := dset s.cache i o }, some o)
-    | none => (s, none)
   match dget s.cache i with
-  | some r => if s.num r = i then (s, some r) else slow
-  | none => slow
+  | some r => if s.num r = i then (s, some r) else getSlow s i
+  | none => getSlow s i
 
 /-- the f-string of a NumberConflictError evaluates `self[obj.number]`, i.e. one more `get`. -/
 def conflict (s : St) (n : Int) : St × Out := ((get s n).1, .err .numberConflict)
@@ -108,9 +114,8 @@ def setNumber (s : St) (o : ObjId) (n : Int) : St × Out :=
   if n ≤ 0 then (s, .err .valueError)
   else
     if s.link o then
-      match checkNumber s n with
-      | (s1, .ok) => ({ s1 with num := fun x => if x = o then n else s1.num x }, .ok)
-      | (s1, e) => (s1, e)
+      let r := checkNumber s n
+      if r.2 = .ok then ({ r.1 with num := fun x => if x = o then n else r.1.num x }, .ok) else r
     else ({ s with num := fun x => if x = o then n else s.num x }, .ok)
 
 /-- `while number in self.numbers: number += step` with explicit fuel. -/
@@ -149,35 +154,37 @@ def appendRenumber (s : St) (o : ObjId) (step : Int) : St × Out :=
   else
     let number := s.num o
     let s0 := { s with link := fun x => if x = o ∧ s.owned then true else s.link x }
-    match append s0 o with
-    | (s1, .ok) => (s1, .int number)
-    | (s1, _) =>
-      match requestNumber s1 number step with
-      | (s2, .int n) =>
-        match setNumber s2 o n with
-        | (s3, .ok) =>
-          match append s3 o with
-          | (s4, .ok) => (s4, .int n)
-          | (s4, e) => (s4, e)
-        | (s3, e) => (s3, e)
-      | (s2, e) => (s2, e)
+    let r1 := append s0 o
+    if r1.2 = .ok then (r1.1, .int number)
+    else
+      let r2 := requestNumber r1.1 number step
+      match r2.2.int? with
+      | some n =>
+        let r3 := setNumber r2.1 o n
+        if r3.2 = .ok then
+          let r4 := append r3.1 o
+          if r4.2 = .ok then (r4.1, .int n) else r4
+        else r3
+      | none => r2
 
 /-- checking loop of `extend` (`ghost = true`) and `__iadd__` (`ghost = false`), repaired code: every
     candidate is checked against the members *and* against the candidates before it.  `extend`
     drops a stale cache entry for each accepted number on the way ("if this number is a ghost;
     remove it"). -/
-def checkAll (ghost : Bool) : St → List ObjId → List Int → St × Option Int
-  | s, [], _ => (s, none)
-  | s, o :: t, seen =>
-    let (s1, found) := inNumbers s (s.num o)
-    if found ∨ s.num o ∈ seen then (s1, some (s.num o))
-    else
-      let s2 := if ghost then { s1 with cache := dpop s1.cache (s.num o) } else s1
-      checkAll ghost s2 t (s.num o :: seen)
+def checkAllC (ghost : Bool) (num : ObjId → Int) (objs : List ObjId) : Cache → List ObjId → List Int → Cache × Option Int
+  | c, [], _ => (c, none)
+  | c, o :: t, seen =>
+    let r := scan num objs c (num o)
+    if r.2 = true ∨ num o ∈ seen then (r.1, some (num o))
+    else checkAllC ghost num objs (if ghost then dpop r.1 (num o) else r.1) t (num o :: seen)
+
+def checkAll (ghost : Bool) (s : St) (os : List ObjId) : St × Option Int :=
+  let r := checkAllC ghost s.num s.objs s.cache os []
+  ({ s with cache := r.1 }, r.2)
 
 /-- `NumberedObjectCollection.extend` -/
 def extend (s : St) (os : List ObjId) : St × Out :=
-  match checkAll true s os [] with
+  match checkAll true s os with
   | (s1, some n) => conflict s1 n
   | (s1, none) =>
     ({ s1 with objs := s1.objs ++ os,
@@ -189,7 +196,7 @@ def setAll (num : ObjId → Int) (c : Cache) : List ObjId → Cache
 
 /-- `NumberedObjectCollection.__iadd__` -/
 def iadd (s : St) (os : List ObjId) : St × Out :=
-  match checkAll false s os [] with
+  match checkAll false s os with
   | (s1, some n) => conflict s1 n
   | (s1, none) =>
     ({ s1 with cache := setAll s.num s1.cache os, objs := s1.objs ++ os,
